@@ -13,6 +13,7 @@ A property module (sim/props/cXX.py) provides:
 from __future__ import annotations
 
 import copy
+import asyncio
 import faulthandler
 import hashlib
 import importlib
@@ -80,6 +81,18 @@ def safe_execute(prop: Any, plan: dict) -> dict:
     _env.set_log_level(plan.get("log_level") or ("DEBUG" if plan.get("debug_log") else "WARNING"))
     try:
         out = prop.execute(plan)
+    except asyncio.CancelledError as exc:
+        # The code under test raised CancelledError to a caller that never cancelled it (where the harness itself gives
+        # up on a call it uses wait_for and sees TimeoutError): neither a result nor a documented exception - a verdict.
+        import time as _time
+        from .world import World
+        if hasattr(World, "_real_time"):
+            _time.time = World._real_time
+        return {"violation": {"clause": "raised:CancelledError",
+                              "detail": "the operation ended in asyncio.CancelledError although its caller never cancelled it\n%s" % (
+                                  traceback.format_exc(limit=6))},
+                "digest": "cancelled-error", "shape": "cancelled-error", "nontrivial": True, "counters": {}, "triggers": [],
+                "sim_s": 0.0, "exchanges": 0}
     except Exception as exc:  # harness bug, not a verdict
         return {"violation": None, "harness_error": "%s: %s\n%s" % (
             type(exc).__name__, exc, traceback.format_exc(limit=8)),
